@@ -315,8 +315,9 @@ func (r *Reader) newBlockReader(nextOff uint64, wantTyp byte) (br *blockReader, 
 	if blockTyp == blockTypeLog {
 		// The size in a log block's header is the inflated size. An
 		// incompressible block is larger than that on disk: zlib adds
-		// 6 bytes, and deflate 5 bytes per stored block of 64k.
-		blockSize += 6 + 5*(blockSize/65535+1)
+		// 6 bytes, and deflate 5 bytes per stored block (Go's writer
+		// emits stored blocks of 16k and a final empty one).
+		blockSize += 16 + 5*(blockSize/16384)
 	}
 	if blockSize > guessBlockSize {
 		block, err = r.getBlock(nextOff, blockSize)
